@@ -108,7 +108,10 @@ JudgeVar(v, o) ==
 JudgeVars(c) ==
   LET m == View(c)
       vs == Variables(m, Word(m, VARS)) IN
-  IF ~WellFormedVars(vs) THEN (IF c.wf = 1 THEN <<"harness:wf", "">> ELSE <<"ok", IF c.err # "" THEN "crash-ill-formed" ELSE "extent">>)
+  \* an area the generator made ill-formed on purpose is not decoded at all (the decoder would follow garbage
+  \* through all of memory): nothing is judged, a crash is noted as drift
+  IF c.wf = 0 THEN <<"ok", IF c.err # "" THEN "crash-ill-formed" ELSE "extent">>
+  ELSE IF ~WellFormedVars(vs) THEN <<"harness:wf", "">>
   ELSE IF c.err # "" THEN <<"crash", "">>
   ELSE IF Len(c.out) # Len(vs) THEN <<"count", "">>
   ELSE LET res == [k \in 1..Len(vs) |-> LET r == JudgeVar(vs[k], c.out[k]) IN
@@ -129,11 +132,11 @@ JudgePeek(c) ==
   LET m == View(c)
       rows == Rows(c.specs) IN
   IF c.err # "" THEN <<"crash", "">>
-  ELSE IF Len(c.out) # Len(rows) THEN <<"count", "">>
+  ELSE IF Len(c.out) # Len(rows) THEN (IF c.open = 1 THEN <<"ok", "word-default-step">> ELSE <<"count", "">>)
   ELSE LET res == [k \in 1..Len(rows) |->
                     IF c.kind = "peek" THEN JudgePeekRow(m, rows[k], c.out[k])
                     ELSE <<IF c.out[k] = WordLine(rows[k], Word(m, rows[k])) THEN "ok" ELSE "line", "">>] IN
-    <<FirstBad(res), JoinDrift(res)>>
+    IF c.open = 1 /\ FirstBad(res) # "ok" THEN <<"ok", "word-default-step">> ELSE <<FirstBad(res), JoinDrift(res)>>
 
 \* ---- --find, --find-text, --find-tile ---------------------------------------------------------------------------------
 \* out rows are <<space, address, end, distance>>; space 0 = the 64K view, space b+1 = RAM bank b on its own (128K
